@@ -113,6 +113,9 @@ func commandPattern(n *Node) string {
 	if n.BgTail {
 		b.WriteString(" -bg")
 	}
+	if n.TouchIn {
+		b.WriteString(" -touchin")
+	}
 	if n.Suffix != "" {
 		b.WriteString(" " + n.Suffix)
 	}
